@@ -103,7 +103,8 @@ func dfs(name string, procc *runtime.Script, sPath *searchPath, p *param) error 
 
 	for _, expr := range procc.CallRef {
 		cName, err := getParamRefScript(expr)
-		p.namePos = expr.NamePos
+		namePos := expr.NamePos
+		p.namePos = namePos
 		if err != nil {
 			return err
 		}
@@ -112,17 +113,17 @@ func dfs(name string, procc *runtime.Script, sPath *searchPath, p *param) error 
 			if err, ok := p.allErrNg[cName]; ok {
 				if e, ok := err.(*errchain.PlError); ok {
 					return e.Copy().ChainAppend(
-						procc.Name, p.namePos)
+						procc.Name, namePos)
 				}
 				return err
 			}
-			return errchain.NewErr(procc.Name, p.namePos,
+			return errchain.NewErr(procc.Name, namePos,
 				fmt.Sprintf("script %s not found", cName))
 		} else {
 			expr.PrivateData = cNg
 			if err := dfs(cName, cNg, sPath, p); err != nil {
 				if e, ok := err.(*errchain.PlError); ok {
-					return e.Copy().ChainAppend(procc.Name, p.namePos)
+					return e.Copy().ChainAppend(procc.Name, namePos)
 				}
 				return err
 			}
